@@ -17,7 +17,7 @@ def run_one(scn: dict, timeout: float = 90) -> list[dict]:
     p = Path(d) / 'scn.json'
     p.write_text(json.dumps(scn))
     env = dict(os.environ)
-    env.update(PYTHONPATH=f'/repo:{C.VERIF}', PYTHONHASHSEED='0', PYTHONDONTWRITEBYTECODE='1')
+    env.update(PYTHONPATH=f'{C.REPO}:{C.VERIF}', PYTHONHASHSEED='0', PYTHONDONTWRITEBYTECODE='1')
     try:
         r = subprocess.run(['timeout', '-k', '5', str(int(timeout)), C.PY, '-u', '-m', 'harness.life_runner', str(p)],
                            stdout=subprocess.PIPE, stderr=subprocess.PIPE, text=True, env=env, cwd=str(C.VERIF),
